@@ -43,6 +43,13 @@ impl<'d> SimdOp for Quantize<'_, 'd, u8> {
         let src_ops = isa.f32();
         let i32_ops = isa.i32();
 
+        // `round(x * inv_scale)` is clamped to a range which is wide enough
+        // that adding any zero point and saturating to u8 gives the same
+        // result as for the unclamped value, but which avoids float -> i32
+        // conversion of values outside the i32 range (where the result is
+        // platform-dependent) and overflow when adding the zero point.
+        let clamp_min = src_ops.splat(-256.);
+        let clamp_max = src_ops.splat(512.);
         let zp_vec = i32_ops.splat(self.zero_point as i32);
         let scale_vec = src_ops.splat(self.inv_scale);
         let f32_v_len = src_ops.len();
@@ -56,6 +63,7 @@ impl<'d> SimdOp for Quantize<'_, 'd, u8> {
             let src = src_ops.load_many::<4>(src_chunk);
             let quant_i32 = src.map(|x| {
                 let y = src_ops.mul(x, scale_vec);
+                let y = src_ops.min(src_ops.max(y, clamp_min), clamp_max);
                 let y = src_ops.to_int_round(y);
                 i32_ops.add(y, zp_vec)
             });
@@ -67,7 +75,7 @@ impl<'d> SimdOp for Quantize<'_, 'd, u8> {
 
         // Quantize tail elements.
         for src in src_chunks.remainder() {
-            let y = (src * self.inv_scale).round_ties_even() as i32;
+            let y = (src * self.inv_scale).max(-256.).min(512.).round_ties_even() as i32;
             let y = (y + self.zero_point as i32).clamp(0, u8::MAX as i32);
             dest_writer.write_scalar(y as u8);
         }
